@@ -126,6 +126,8 @@ def same(mw, iw):
             return False
         md = {canon(k): v for k, v in mw['d']}
         return all(canon(k) in md and same(md[canon(k)], v) for k, v in iw['d'])
+    if isinstance(iw, dict) and 'o' in iw:      # a non-data object: a leaf of the model named by its description
+        return mw == 'obj:' + canon(iw)
     return canon(mw) == canon(iw)
 
 
@@ -322,6 +324,14 @@ def render_pipe(pipe, probes=False):
             lines.append('  - vobs')
     if not pipe['steps'] and not probes:
         lines[-1] = 'steps: []'
+    for gname, gsteps in (pipe.get('groups') or {}).items():      # step groups that `pypyr.steps.call` runs
+        lines.append(f'{gname}:')
+        for st in gsteps:
+            lines.append('  - ' + (st if isinstance(st, str) else yv(st)))
+            if probes:
+                lines.append('  - vobs')
+        if not gsteps:
+            lines[-1] = f'{gname}: []'
     return '\n'.join(lines) + '\n'
 
 
@@ -332,25 +342,38 @@ def render_pipe(pipe, probes=False):
 ATOMS = [0, 1, 2, 3, 7, 'a', 'b', 'xy', 'q r', True, False, None]
 STEP_KINDS = ['append_in', 'append_ctx', 'add', 'add_in', 'set', 'setf', 'set_ff', 'default', 'merge',
               'contextcopy', 'py_append', 'py_extend', 'py_dictset', 'py_add', 'py_alias', 'py_in',
-              'configvars', 'foreach', 'retry', 'while', 'pype_parent', 'pype_child']
+              'configvars', 'foreach', 'foreach_list', 'foreach_dict', 'foreach_set', 'onerror', 'retry', 'while',
+              'call', 'pype_parent', 'pype_child']
 
 
 def gen_atom(rng):
     return rng.choice(ATOMS)
 
 
+EMPTY_P = 0.22      # how often a generated container is EMPTY (at every nesting level)
+
+
+def gen_size(rng, lo=1, hi=3):
+    return 0 if rng.random() < EMPTY_P else rng.randint(lo, hi)
+
+
 def gen_val(rng, depth=2, kind=None):
-    """Brace-free plain value: atoms, lists, dicts with str keys."""
+    """Brace-free plain value: atoms, lists, dicts with str keys; containers are empty now and then,
+    and below the last level an empty container stands where an atom would."""
     if kind is None:
-        kind = rng.choice(['atom', 'atom', 'list', 'dict']) if depth > 0 else 'atom'
+        if depth > 0:
+            kind = rng.choice(['atom', 'atom', 'list', 'dict'])
+        else:
+            c = rng.random()
+            return [] if c < 0.08 else {} if c < 0.16 else gen_atom(rng)
     if kind == 'atom':
         return gen_atom(rng)
     if kind == 'list':
-        return [gen_val(rng, depth - 1) for _ in range(rng.randint(1, 3))]
+        return [gen_val(rng, depth - 1) for _ in range(gen_size(rng))]
     if kind == 'dict':
-        return {f'm{j}': gen_val(rng, depth - 1) for j in range(rng.randint(1, 3))}
+        return {f'm{j}': gen_val(rng, depth - 1) for j in range(gen_size(rng))}
     if kind == 'set':
-        return {x for x in (gen_hashable(rng) for _ in range(rng.randint(1, 3)))}
+        return {x for x in (gen_hashable(rng) for _ in range(gen_size(rng)))}
     raise ValueError(kind)
 
 
@@ -366,9 +389,14 @@ def py_lit(v):
 class Emit:
     """Appends steps to one pipeline and the corresponding object-level operations of one run."""
 
-    def __init__(self, gen, pipe, r, shadow, prog, depth=0):
+    def __init__(self, gen, pipe, r, shadow, prog, depth=0, group='steps'):
         self.gen, self.pipe, self.r, self.shadow, self.prog, self.depth = gen, pipe, r, shadow, prog, depth
+        self.group = group          # the step group of `pipe` this emitter appends to
         self.rng = gen.rng
+
+    def steplist(self):
+        pipe = self.gen.pipes[self.pipe]
+        return pipe['steps'] if self.group == 'steps' else pipe.setdefault('groups', {}).setdefault(self.group, [])
 
     # -- primitive emissions (operation + the same change on the shadow value) ----------------
     def op(self, o, r=None):
@@ -412,9 +440,27 @@ class Emit:
         self.op({'o': 'copyKey', 'src': src, 'dst': dst})
         self.shadow[dst] = self.shadow[src]
 
+    def append_step(self, K, W, unpack):
+        """`pypyr.steps.append` with `list: K`: appends to / extends the list in place if `context.get(K)`
+        is TRUTHY, otherwise (no such key, None, an EMPTY list) binds a new list."""
+        if self.shadow.get(K):
+            return self.extend([K], W) if unpack else self.append([K], W)
+        return self.set_key(K, copy.deepcopy(list(W)) if unpack else [copy.deepcopy(W)])
+
+    def add_step(self, K, a):
+        """`pypyr.steps.add` with `set: K`: same truthiness rule as append."""
+        if self.shadow.get(K):
+            return self.add([K], a)
+        return self.set_key(K, {a})
+
     # -- steps ----------------------------------------------------------------------------
-    def step(self, name, inargs, body, foreach=None, retry=None, retry_fail_until=0, while_max=None):
-        steps = self.gen.pipes[self.pipe]['steps']
+    def step(self, name, inargs, body, foreach=None, retry=None, retry_fail_until=0, while_max=None,
+             on_error=None, swallow=False, fails=None):
+        """One step of the pipeline + what running it does to objects.  `foreach`: the items are objects
+        of the DEFINITION that the step copies by formatting before `i` is bound to them (operation
+        `fmtSetAt`); `fails` (an exception instance) + `swallow`: the body raises it, `Step.save_error`
+        then records it – with the formatted `onError` value of the definition – under `runErrors`."""
+        steps = self.steplist()
         idx = len(steps)
         st = {'name': name}
         if inargs:
@@ -425,36 +471,61 @@ class Emit:
             st['retry'] = retry
         if while_max is not None:
             st['while'] = {'max': while_max}
+        if swallow:
+            st['swallow'] = True
+        if on_error is not None:
+            st['onError'] = on_error
         steps.append(st)
         for k, v in inargs.items():
-            self.op({'o': 'inCopy', 'key': k, 'src': {'defn': self.pipe, 'path': ['steps', idx, 'in', k]}})
+            self.op({'o': 'inCopy', 'key': k, 'src': {'defn': self.pipe, 'path': [self.group, idx, 'in', k]}})
             self.shadow[k] = copy.deepcopy(v)
+
+        def once():
+            body()
+            self.obs()
+            if fails is not None:
+                self.save_error(idx, name, fails, on_error, swallow)
         if foreach is not None:
-            for item in foreach:
-                self.set_key('i', copy.deepcopy(item))
-                body()
-                self.obs()
+            for j, item in enumerate(foreach):
+                self.op({'o': 'fmtSetAt', 'path': [], 'k': 'i',
+                         'src': {'defn': self.pipe, 'path': [self.group, idx, 'foreach', j]}})
+                self.shadow['i'] = copy.deepcopy(item)
+                once()
         elif retry is not None:
             self.set_key('retryCounter', 0)
             for n in range(1, retry_fail_until + 1):
                 self.set_key('retryCounter', n)
-                body()
-                self.obs()
+                once()
         elif while_max is not None:
             for n in range(1, while_max + 1):
                 self.set_key('whileCounter', n)
-                body()
-                self.obs()
+                once()
         else:
-            body()
-            self.obs()
+            once()
         for k in inargs:
             self.op({'o': 'unsetIn', 'key': k})
             self.shadow.pop(k, None)
         return st
 
+    def save_error(self, idx, name, exc, on_error, swallowed):
+        """`Step.save_error`: `context.setdefault('runErrors', []).append({… 'customError':
+        context.get_formatted_value(self.on_error) if self.on_error else {} …})`."""
+        parser = 1 if self.gen.pipes[self.pipe].get('parser') else 0
+        failure = {'name': type(exc).__name__, 'description': str(exc), 'customError': None,
+                   'line': parser + 2 + idx, 'col': 5, 'step': name, 'exception': exc, 'swallowed': swallowed}
+        if 'runErrors' not in self.shadow:
+            self.set_key('runErrors', [])
+        n = len(self.shadow['runErrors'])
+        self.append(['runErrors'], failure)
+        if on_error:
+            self.op({'o': 'fmtSetAt', 'path': ['runErrors', n], 'k': 'customError',
+                     'src': {'defn': self.pipe, 'path': [self.group, idx, 'onError']}})
+            self.shadow['runErrors'][n]['customError'] = copy.deepcopy(on_error)
+        else:
+            self.dict_set(['runErrors', n], 'customError', {})
+
     def simple(self, name, body):
-        self.gen.pipes[self.pipe]['steps'].append(name)
+        self.steplist().append(name)
         body()
         self.obs()
 
@@ -467,7 +538,7 @@ class Emit:
                 out.append(path)
             if top_only and path:
                 return
-            if len(path) >= 3:
+            if len(path) >= 4:
                 return
             if isinstance(o, dict):
                 for k, v in o.items():
@@ -477,7 +548,8 @@ class Emit:
                 for i, v in enumerate(o):
                     walk(v, path + [i])
         walk(self.shadow, [])
-        return [p for p in out if isinstance(p[0], str) and p[0].isidentifier()]
+        # not the `call` argument itself: Step.reset_context_counters puts it back after the called group
+        return [p for p in out if isinstance(p[0], str) and p[0].isidentifier() and p[0] != 'call']
 
     def fresh_key(self, prefix):
         self.gen.nkey += 1
@@ -488,12 +560,13 @@ class Emit:
         return path[0] + ''.join(f'[{p!r}]' for p in path[1:])
 
     # -- step kinds -----------------------------------------------------------------------------
-    def emit(self, kind):
+    def emit(self, kind, forced=None):
         rng = self.rng
+        forced = forced or {}
         self.gen.kinds.append(kind)
-        lists = self.paths(lambda o: isinstance(o, list) and len(o) > 0)
+        lists = self.paths(lambda o: isinstance(o, list))      # also the EMPTY ones
         dicts = self.paths(lambda o: isinstance(o, dict))
-        sets = self.paths(lambda o: isinstance(o, set) and len(o) > 0)
+        sets = self.paths(lambda o: isinstance(o, set))
         tops = [p for p in self.paths(lambda o: True, top_only=True)]
         if kind == 'append_in':       # the F4 shape: a container given under `in`, mutated in place
             K = self.fresh_key('l')
@@ -503,38 +576,26 @@ class Emit:
             if unpack:
                 arg['unpack'] = True
             V = gen_val(rng, 2, 'list')
-            self.step('pypyr.steps.append', {K: V, 'append': arg},
-                      lambda: self.extend([K], W) if unpack else self.append([K], W))
+            self.step('pypyr.steps.append', {K: V, 'append': arg}, lambda: self.append_step(K, W, unpack))
         elif kind == 'append_ctx':
             cands = [p for p in lists if len(p) == 1]
             unpack = rng.random() < 0.3
             W = gen_val(rng, 1, 'list') if unpack else gen_val(rng, 2)
-            if cands and rng.random() < 0.8:
-                K = rng.choice(cands)[0]
-                body = (lambda: self.extend([K], W)) if unpack else (lambda: self.append([K], W))
-            else:
-                K = self.fresh_key('l')
-                body = (lambda: self.set_key(K, copy.deepcopy(list(W)))) if unpack else (
-                    lambda: self.set_key(K, [copy.deepcopy(W)]))
+            K = rng.choice(cands)[0] if cands and rng.random() < 0.8 else self.fresh_key('l')
             arg = {'list': K, 'addMe': W}
             if unpack:
                 arg['unpack'] = True
-            self.step('pypyr.steps.append', {'append': arg}, body)
+            self.step('pypyr.steps.append', {'append': arg}, lambda: self.append_step(K, W, unpack))
         elif kind == 'add':
             cands = [p for p in sets if len(p) == 1]
             a = gen_hashable(rng)
-            if cands and rng.random() < 0.8:
-                K = rng.choice(cands)[0]
-                body = lambda: self.add([K], a)   # noqa: E731
-            else:
-                K = self.fresh_key('s')
-                body = lambda: self.set_key(K, {a})   # noqa: E731
-            self.step('pypyr.steps.add', {'add': {'set': K, 'addMe': a}}, body)
+            K = rng.choice(cands)[0] if cands and rng.random() < 0.8 else self.fresh_key('s')
+            self.step('pypyr.steps.add', {'add': {'set': K, 'addMe': a}}, lambda: self.add_step(K, a))
         elif kind == 'add_in':        # a set given under `in` (yaml !!set), added to in place
             K = self.fresh_key('s')
             a = gen_hashable(rng)
             self.step('pypyr.steps.add', {K: gen_val(rng, 1, 'set'), 'add': {'set': K, 'addMe': a}},
-                      lambda: self.add([K], a))
+                      lambda: self.add_step(K, a))
         elif kind in ('set', 'setf'):
             pairs = {self.fresh_key('k') if rng.random() < 0.7 or not tops else rng.choice(tops)[0]: gen_val(rng, 2)
                      for _ in range(rng.randint(1, 2))}
@@ -630,16 +691,98 @@ class Emit:
                 for k, v in self.gen.config['vars'].items():
                     self.shadow[k] = copy.deepcopy(v)
             self.simple('pypyr.steps.configvars', body)
-        elif kind == 'foreach':       # container items; the body mutates the current item in place
-            items = [gen_val(rng, 1, 'list') for _ in range(rng.randint(1, 3))]
-            W = gen_atom(rng)
+        elif kind in ('foreach', 'foreach_list', 'foreach_dict', 'foreach_set'):
+            # items of the definition (containers, EMPTY ones included, nested) that the step copies by
+            # formatting; the body changes the current item IN PLACE through `i` (py, contextmerge
+            # into `i`, append / add on `i`) and keeps it beyond the loop under another key
+            shape = {'foreach': rng.choice(['list', 'dict', 'set']), 'foreach_list': 'list', 'foreach_dict': 'dict',
+                     'foreach_set': 'set'}[kind]
+            n = len(forced['items']) if 'items' in forced else rng.randint(1, 3)
+            W = gen_val(rng, 1)
             acc = self.fresh_key('k')
-            code = f"i.append({py_lit(W)})\n{acc} = i\nsave('{acc}')"
+            keep = f"\n{acc} = i\nsave('{acc}')" if rng.random() < 0.6 else ''
 
-            def body():
-                self.append(['i'], W)
-                self.copy_key('i', acc)
-            self.step('pypyr.steps.py', {'py': code}, body, foreach=items)
+            def kept():
+                if keep:
+                    self.copy_key('i', acc)
+            if shape == 'list':
+                items = forced.get('items') or [gen_val(rng, 1, 'list') for _ in range(n)]
+                how = forced.get('how') or rng.choice(['py', 'merge', 'append'])
+                if how == 'py':
+                    def body():
+                        self.append(['i'], W)
+                        kept()
+                    self.step('pypyr.steps.py', {'py': f'i.append({py_lit(W)})' + keep}, body, foreach=items)
+                elif how == 'merge':
+                    add = {'i': gen_val(rng, 1, 'list')}
+                    self.step('pypyr.steps.contextmerge', {'contextMerge': add},
+                              lambda: self.merge_ops([], self.shadow, add), foreach=items)
+                else:
+                    self.step('pypyr.steps.append', {'append': {'list': 'i', 'addMe': W}},
+                              lambda: self.append_step('i', W, False), foreach=items)
+            elif shape == 'dict':
+                items = [{'name': gen_atom(rng), 'done': gen_val(rng, 1, 'list'), 'meta': gen_val(rng, 1, 'dict')}
+                         for _ in range(n)]
+                if rng.random() < 0.3:
+                    items[rng.randrange(n)] = {'name': gen_atom(rng), 'done': [], 'meta': {}}
+                items = forced.get('items') or items
+                how = forced.get('how') or rng.choice(['py_list', 'py_dict', 'merge', 'merge'])
+                if how == 'py_list':
+                    def body():
+                        self.append(['i', 'done'], W)
+                        kept()
+                    self.step('pypyr.steps.py', {'py': f"i['done'].append({py_lit(W)})" + keep}, body, foreach=items)
+                elif how == 'py_dict':
+                    def body():
+                        self.dict_set(['i', 'meta'], 'zz', W)
+                        kept()
+                    self.step('pypyr.steps.py', {'py': f"i['meta']['zz'] = {py_lit(W)}" + keep}, body, foreach=items)
+                else:
+                    add = {'i': {'done': gen_val(rng, 1, 'list'), 'meta': {'zz': W}}}
+                    if rng.random() < 0.5:
+                        add[self.fresh_key('k')] = gen_val(rng, 1)
+                    self.step('pypyr.steps.contextmerge', {'contextMerge': add},
+                              lambda: self.merge_ops([], self.shadow, add), foreach=items)
+            else:
+                items = forced.get('items') or [gen_val(rng, 1, 'set') for _ in range(n)]
+                a = gen_hashable(rng)
+                if (forced.get('how') or rng.choice(['py', 'add'])) == 'py':
+                    def body():
+                        self.add(['i'], a)
+                        kept()
+                    self.step('pypyr.steps.py', {'py': f'i.add({py_lit(a)})' + keep}, body, foreach=items)
+                else:
+                    self.step('pypyr.steps.add', {'add': {'set': 'i', 'addMe': a}}, lambda: self.add_step('i', a),
+                              foreach=items)
+        elif kind == 'onerror' and (not isinstance(self.shadow.get('runErrors', []), list) or self.group != 'steps'):
+            # an earlier step bound runErrors to something save_error cannot append to / inside a called group
+            # (the line number save_error records is only known once the whole file is laid out)
+            return self.emit('set')
+        elif kind == 'onerror':
+            # a step that fails and is swallowed: `Step.save_error` keeps the formatted `onError` value of
+            # the definition under runErrors; a later step changes that value in place
+            E = rng.choice([gen_val(rng, 2, 'dict'), gen_val(rng, 2, 'list'), {'why': [], 'ctx': {}},
+                            {'why': gen_val(rng, 1, 'list'), 'ctx': gen_val(rng, 1, 'dict')}, gen_atom(rng)])
+            E = forced.get('onError', E)
+            exc = rng.choice([ValueError('boom'), KeyError('nokey'), RuntimeError('stop 1')])
+            code = f'raise {type(exc).__name__}({exc.args[0]!r})'
+            self.step('pypyr.steps.py', {'py': code}, lambda: None, on_error=E, swallow=True, fails=exc)
+            n = len(self.shadow['runErrors']) - 1
+            ce = ['runErrors', n, 'customError']
+            node = self.node(ce)
+            W = gen_val(rng, 1)
+            targets = [ce] if isinstance(node, (list, dict)) else []
+            if isinstance(node, dict):
+                targets += [ce + [k] for k, v in node.items() if isinstance(v, (list, dict))]
+            elif isinstance(node, list):
+                targets += [ce + [j] for j, v in enumerate(node) if isinstance(v, (list, dict))]
+            if targets:
+                p = rng.choice(targets)
+                if isinstance(self.node(p), list):
+                    self.step('pypyr.steps.py', {'py': f'{self.expr(p)}.append({py_lit(W)})'}, lambda: self.append(p, W))
+                else:
+                    self.step('pypyr.steps.py', {'py': f"{self.expr(p)}['zz'] = {py_lit(W)}"},
+                              lambda: self.dict_set(p, 'zz', W))
         elif kind == 'retry':         # container-valued retry inputs; the first attempt(s) fail
             cands = [p for p in lists if len(p) == 1 and p[0] not in ('whileCounter', 'retryCounter', 'i')]
             if not cands:
@@ -647,7 +790,8 @@ class Emit:
             K = rng.choice(cands)[0]
             until = rng.randint(1, 3)
             retry = {'max': 4, 'sleep': [0, 0] if rng.random() < 0.5 else 0, 'retryOn': ['ValueError', 'KeyError'],
-                     'stopOn': ['TypeError'], 'backoffArgs': {'x': [1, 2]}}
+                     'stopOn': rng.choice([['TypeError'], []]),
+                     'backoffArgs': rng.choice([{'x': [1, 2]}, {'x': []}, {}, {'x': {}, 'y': [[]]}])}
             code = f"{K}.append(retryCounter)\nif retryCounter < {until}:\n    raise ValueError('again')"
             self.step('pypyr.steps.py', {'py': code}, lambda: self.append([K], self.shadow['retryCounter']),
                       retry=retry, retry_fail_until=until)
@@ -659,6 +803,19 @@ class Emit:
             W = gen_val(rng, 1, 'list')
             self.step('pypyr.steps.py', {'py': f"{K}.append([whileCounter] + {py_lit(W)})"},
                       lambda: self.append([K], [self.shadow['whileCounter']] + W), while_max=rng.randint(1, 3))
+        elif kind == 'call':
+            # `pypyr.steps.call`: Step.invoke_step runs another step group of the same pipeline through
+            # `context.current_pipeline.steps_runner` - the runner the running Pipeline object holds
+            if self.depth > 0:
+                return self.emit('set')
+            self.gen.ngroup += 1
+            gname = f'g{self.gen.ngroup}'
+            self.gen.pipes[self.pipe].setdefault('groups', {})[gname] = []
+
+            def body():
+                sub = Emit(self.gen, self.pipe, self.r, self.shadow, self.prog, self.depth + 1, group=gname)
+                sub.emit_many(rng.randint(1, 2))
+            self.step('pypyr.steps.call', {'call': gname}, body)
         elif kind == 'pype_parent':
             if self.depth > 0:
                 return self.emit('set')
@@ -745,7 +902,8 @@ class Emit:
 
     def emit_many(self, n, kinds=None):
         for _ in range(n):
-            pool = kinds or (STEP_KINDS if self.depth == 0 else [k for k in STEP_KINDS if not k.startswith('pype')])
+            pool = kinds or (STEP_KINDS if self.depth == 0 else
+                             [k for k in STEP_KINDS if not k.startswith('pype') and k != 'call'])
             self.emit(self.rng.choice(pool))
 
 
@@ -758,6 +916,7 @@ class ProgGen:
         self.nkey = 0
         self.nchild = 0
         self.nchildrun = 0
+        self.ngroup = 0
         self.kinds = []
         self.config = config if config is not None else {'vars': {}, 'shortcuts': {}}
 
@@ -801,9 +960,13 @@ class ProgGen:
         parse_input = not (not context_args and eff_in is not None)
         if parse_input and parser == 'pypyr.parser.list':
             e.set_key('argList', list(context_args or []))
+        prog.append(['steps', 0])     # up to here: the caller's Context(...) and _prepare_context; from here: the runner
         if script:
-            for kind in script:
-                e.emit(kind)
+            for kind in script:          # 'kind' or ['kind', {forced choices}]
+                if isinstance(kind, str):
+                    e.emit(kind)
+                else:
+                    e.emit(kind[0], kind[1])
         else:
             e.emit_many(nsteps, kinds)
         e.obs()   # the final context of the run
@@ -827,16 +990,21 @@ def unwire(w):
     return w
 
 
-def instantiate(prog, r, shared):
-    """Program with placeholder run ids and symbolic addresses -> model schedule entries
-    [[run, op-json] …] and the positions of the observation points [(index of last op, run)]."""
-    sched, points = [], []
+def instantiate(prog, r, shared, obj=None):
+    """Program with placeholder run ids and symbolic addresses -> one call of the model
+    ({obj, run, pre: [op…], steps: [[null | nested run, op]…]}, `RunHeap.Call`), the number of operations it
+    has, and the positions of the observation points [(index of the last operation before it, run)]."""
+    pre, steps, points = [], [], []
+    in_steps = False
 
     def rid(x):
         return r if x == 0 else 100 * r + x
     for who, o in prog:
         if who == 'obs':
-            points.append((len(sched) - 1, rid(o)))
+            points.append((len(pre) + len(steps) - 1, rid(o)))
+            continue
+        if who == 'steps':
+            in_steps = True
             continue
         o = dict(o)
         if 'src' in o and isinstance(o['src'], dict) and ('defn' in o['src'] or 'config' in o['src']):
@@ -845,8 +1013,13 @@ def instantiate(prog, r, shared):
             o['b'] = block_of_wire(o.pop('v'))
         if 'vs' in o:
             o['bs'] = [block_of_wire(v) for v in o.pop('vs')]
-        sched.append([rid(who), o])
-    return sched, points
+        if in_steps:
+            steps.append([None if who == 0 else rid(who), o])
+        elif who != 0:
+            raise common.Infra('a nested run before the steps of a call')
+        else:
+            pre.append(o)
+    return {'obj': r if obj is None else obj, 'run': r, 'pre': pre, 'steps': steps}, len(pre) + len(steps), points
 
 
 # ---------------------------------------------------------------------------------------------
@@ -870,6 +1043,10 @@ class Sandbox:
         self.admin.clear_all()
         self.dir = None
         self.vobs = None
+        self.objs = {}             # entry key -> the pypyr.pipeline.Pipeline object that entry's runs re-use
+        self.last_live = None
+        self.reused = 0
+        self.refreshed = 0
 
     def install(self, pipes, cfg, probes=False):
         """Write the pipelines of one case (replacing the previous case's), set config, empty the caches."""
@@ -889,6 +1066,7 @@ class Sandbox:
             (self.dir / f'{name}.yaml').write_text(pipe if isinstance(pipe, str) else render_pipe(pipe, probes))
         self.admin.clear_all()
         self.vobs.HOOK = None
+        self.objs = {}
         vars_ = unwire(wire(cfg.get('vars') or {}))
         shortcuts = {}
         for name, sc in (cfg.get('shortcuts') or {}).items():
@@ -942,20 +1120,59 @@ class Sandbox:
             pass
         return out
 
-    def run(self, name, dict_in=None, args_in=None):
-        """One run through the public entry point. Returns (outcome, context or None)."""
+    def target(self, name):
+        return name if name in self.config.shortcuts else str(self.dir / name)
+
+    def pipeline_object(self, key, name, dict_in=None, args_in=None):
+        """The `pypyr.pipeline.Pipeline` object of entry `key` and the dict that initialises the context
+        of this run, through the public constructors.  The first request makes the object the way
+        `pipelinerunner.run` does (`Pipeline.new_pipe_and_args`; for a plain pipeline name, every other
+        time, the bare constructor `Pipeline(name, context_args, parse_input)`); later requests hand
+        back THE SAME object.  The inputs handed to a Pipeline belong to the caller, every run gets equal
+        inputs: the argument list the object holds is assigned afresh before a re-run (`pypyr.parser.list`
+        hands that very list to the context as argList, so a run may have changed it)."""
+        from pypyr.pipeline import Pipeline
+        target = self.target(name)
+        fresh, args = Pipeline.new_pipe_and_args(name=target, context_args=list(args_in) if args_in else None,
+                                                 dict_in=dict_in)
+        pipeline = self.objs.get(key)
+        if pipeline is None:
+            if name not in self.config.shortcuts and self.n % 2:
+                pipeline = Pipeline(target, context_args=fresh.context_args, parse_input=fresh.parse_input)
+            else:
+                pipeline = fresh
+            self.objs[key] = pipeline
+        else:
+            self.reused += 1
+            if pipeline.context_args is not None or fresh.context_args is not None:
+                self.refreshed += 1
+            pipeline.context_args = fresh.context_args
+        return pipeline, args
+
+    def run(self, name, dict_in=None, args_in=None, via='runner', key=None):
+        """One run through the public API. Returns (outcome, context).  via='runner':
+        `pipelinerunner.run` (a new Pipeline object inside); via='object': `Pipeline.run(context)` on the
+        Pipeline object of entry `key`, which is made on that entry's first run and RE-USED afterwards,
+        with a new `Context` for every run."""
         import pypyr.pipelinerunner as pr
-        is_shortcut = name in self.config.shortcuts
-        target = name if is_shortcut else str(self.dir / name)
-        kwargs = {}
-        if dict_in is not None:
-            kwargs['dict_in'] = dict_in
-        if args_in:
-            kwargs['args_in'] = list(args_in)
+        from pypyr.context import Context
+        ctx = self.last_live = None
         try:
-            ctx = pr.run(target, **kwargs)
+            if via == 'object':
+                pipeline, args = self.pipeline_object(key, name, dict_in, args_in)
+                ctx = Context(args) if args else Context()
+                pipeline.run(ctx)
+            else:
+                kwargs = {}
+                if dict_in is not None:
+                    kwargs['dict_in'] = dict_in
+                if args_in:
+                    kwargs['args_in'] = list(args_in)
+                ctx = pr.run(self.target(name), **kwargs)
+            self.last_live = ctx
             return 'ok', ctx
         except Exception as e:   # noqa: BLE001 - the run's own outcome
+            self.last_live = ctx       # the Context object a failed run worked on, where the caller made it
             return {'err': common.exc_name(e), 'msg': str(e).replace(str(self.dir), '<dir>')}, None
 
     def close(self):
